@@ -205,9 +205,12 @@ class ScopeMetrics:
         *args: Any,
         exception: BaseException | None = None,
     ) -> None:
+        # the message is %-formatted only when args are provided,
+        # escape prefix then to avoid breaking formatting by the scope name
+        prefix: str = self._logger_prefix.replace("%", "%%") if args else self._logger_prefix
         self._logger.log(
             level,
-            f"{self._logger_prefix} {message}",
+            f"{prefix} {message}",
             *args,
             exc_info=exception,
         )
